@@ -723,7 +723,10 @@ class Database(SQLiteMixin):
             row['claim_id'] = txo.purchased_claim_id
         if txo.script.is_claim_involved:
             row['claim_id'] = txo.claim_id
-            row['claim_name'] = txo.claim_name
+            try:
+                row['claim_name'] = txo.claim_name
+            except UnicodeDecodeError:  # names are arbitrary bytes on chain, anybody can send us one that is not UTF-8
+                row['claim_name'] = txo.script.values['claim_name'].decode(errors='replace')
         return row
 
     def tx_to_row(self, tx):
